@@ -209,6 +209,70 @@ def k5_fallback(s: str) -> bool:
     return rle == ((rx.CODE.ANY, len(s)),) and x.n_too_many_groups == 1
 
 
+# ---- K2b/K6: composition made explicit - the C03 lemmas C13 leans on, and the whole pipeline on tiny inputs ------
+E2E_ALPHABET = 'a1.{}'
+
+
+def k2_escape_literal(c: str) -> bool:
+    """
+    pre: len(c) == 1
+    post: __return__
+    """
+    from vp.oracles import unescape_plain
+    return unescape_plain(X.Cats.escape(c)) == c
+
+
+def lift_escape(c):
+    ok = True
+    for ex in (['a' + c + '2}', 'b' + c + '2}'], ['a{2' + c, 'b{2' + c], ['x' + c + '1,3}'], ['x{1,3' + c],
+               ['a' + c + 'b]', 'c' + c + 'd]'], ['(a' + c, '(b' + c], ['a' + c + '?', 'b' + c + '?'], [c],
+               ['a' + c, 'b' + c], ['a|' + c, 'b|' + c]):
+        ok = ok and _pipeline_ok(ex, {})
+    return ok
+
+
+def _pipeline_ok(ex, kw):
+    """everything C13 says about one call of the real extract()"""
+    r = rx.extract(list(ex), dialect=DIALECT, **kw)
+    distinct = []
+    for e in ex:
+        if e not in distinct:
+            distinct.append(e)
+    if len(set(r)) != len(r) or len(r) > len(distinct):
+        return False
+    for p_ in r:
+        if not (p_.startswith('^') and p_.endswith('$')):
+            return False
+        cr = re.compile(p_, RE_FLAGS)
+        if not any(cr.match(e) for e in ex):
+            return False
+    # tagging changes only the grouping
+    t = rx.extract(list(ex), dialect=DIALECT, tag=True, **kw)
+    if len(t) != len(r):
+        return False
+    for e in ex:
+        if [bool(re.match(p_, e, RE_FLAGS)) for p_ in r] != [bool(re.match(p_, e, RE_FLAGS)) for p_ in t]:
+            return False
+    return True
+
+
+def k6_pipeline(i1: List[int], i2: List[int]) -> bool:
+    """
+    pre: len(i1) <= P['l1'] and len(i2) <= P['l2']
+    pre: all(0 <= i < len(P['alpha']) for i in i1 + i2)
+    post: __return__
+    """
+    def text(idx):
+        out = ''
+        for i in idx:
+            for k in range(len(P['alpha'])):
+                if i == k:
+                    out += P['alpha'][k]
+                    break
+        return out
+    return _pipeline_ok([text(i1), text(i2)], dict(P.get('kw') or {}))
+
+
 def _obs():
     obs = []
     for d, e, tier in (('portable', None, 'quick'), ('perl', None, 'thorough'), ('grep', '_.-', 'quick'),
@@ -252,6 +316,19 @@ def _obs():
                   '.{n} with n = len(s), otherwise as its coarse run-length encoding',
                   'MAX_GROUPS patched to 2; s any string len<=4', param={'n': 4}, timeout=1800, tier='thorough',
                   stubs=['rexpy.MAX_GROUPS = 2 so that the limit is inside the bound']))
+    obs.append(Ob('K2', 'k2_escape_literal', 'a literal character is escaped so that it un-escapes to itself and no '
+                  'regex metacharacter is left bare (same lemma as C03-L5d; validity of every fixed fragment rests on '
+                  'it)', 'c: any one code point', param={'dialect': 'portable', 'extra': None}, timeout=120,
+                  lift='lift_escape'))
+    for alpha, l1, l2, kw, tier, to in (('a.', 4, 3, {}, 'quick', 600), ('a1.{}', 3, 2, {}, 'thorough', 7000),
+                                        ('a1.{}', 3, 2, {'variableLengthFrags': True}, 'thorough', 7000)):
+        obs.append(Ob('K6', 'k6_pipeline', 'end to end on tiny inputs: every expression the real extract() returns '
+                      'compiles, is anchored, matches at least one example, none is returned twice, there are never '
+                      'more expressions than distinct examples, and tag=True matches exactly the same examples',
+                      'every pair of strings of length <=%d and <=%d over the alphabet %r (symbolic index per '
+                      'position); options %r' % (l1, l2, alpha, kw),
+                      param={'dialect': 'portable', 'extra': None, 'l1': l1, 'l2': l2, 'kw': kw, 'alpha': alpha}, timeout=to,
+                      tier=tier))
     return obs
 
 
